@@ -4,8 +4,9 @@ from .common import *
 from ..schema import protoparse as PP, wire as W
 
 # "artifacts written by earlier releases remain readable" also needs the layer media types to stay the
-# published ones (ARTIFACT.md): decided by the C20.types rules, re-decided here
-RELIES_ON = {'C20': ['C20.types']}
+# published ones (ARTIFACT.md) and the layer bytes to be exactly the message's encoding, read back by the
+# plain decoder with no extra rejection (seeds C07-4, C07-7, C07-8): decided by the C20.types / C20.kinds rules
+RELIES_ON = {'C20': ['C20.types', 'C20.kinds']}
 RELEASE_TWIN = False      # derive output is profile independent; the schema tables are not MIR-shape rules
 
 
